@@ -236,6 +236,25 @@ Example C21_run_resets_nonvacuous :
   = [0; 77711; 88888; 55555; 0; 77711; 88888; 55555; 0; 5; 55555].
 Proof. vm_compute. reflexivity. Qed.
 
+(* RUN forgets the history: for EVERY program and EVERY sequence of commands typed before it that came to an end
+   (whatever they left behind: handler line, error registers, handler mode, stacks, variables, DATA pointer, the
+   hard/soft switch of math errors), RUN and the commands after it give the output of a fresh session *)
+Theorem C21_run_forgets_history : forall prog cmds1 cmds2 fuel st,
+  session_completes prog cmds1 fuel st = true ->
+  run_session prog (cmds1 ++ CRun :: cmds2) fuel st =
+  run_session prog cmds1 fuel st ++ run_session prog (CRun :: cmds2) fuel (init_at 0).
+Proof. intros prog cmds1 cmds2 fuel st. exact (run_forgets_history prog cmds2 fuel cmds1 st). Qed.
+Print Assumptions C21_run_forgets_history.
+
+(* a session is the composition of its parts: for every history that came to an end, the later commands behave
+   as if started in exactly the state that history left behind (session_state) *)
+Theorem C21_session_composes : forall prog cmds1 cmds2 fuel st,
+  session_completes prog cmds1 fuel st = true ->
+  run_session prog (cmds1 ++ cmds2) fuel st =
+  run_session prog cmds1 fuel st ++ run_session prog cmds2 fuel (session_state prog cmds1 fuel st).
+Proof. intros prog cmds1 cmds2 fuel st. exact (session_app prog cmds2 fuel cmds1 st). Qed.
+Print Assumptions C21_session_composes.
+
 (* ---- non-vacuity ------------------------------------------------------------------------------------ *)
 (* 10 ON ERROR GOTO 100
    20 A%=1:ERROR 5:PRINT 2
